@@ -14,16 +14,19 @@ ASSUMPTIONS = [
     "a prefix call that raises for a too-short input is skipped for that k and counted, not failed",
     "minmax may differ in the last `order` positions of the prefix (documented confirmation delay)",
     "fields whose sequential length differs from the input length are compared left-aligned (the length itself is C14's business)",
+    "positions where both the prefix and the full series are non-finite (NaN or +-inf from 0/0, x/0 on degenerate inputs such as zero volume) count as equal",
     "parameter perturbation is limited to integer period-like parameters (2..60) and source_type",
 ]
 TECHNIQUE = "metamorphic prefix relation over generated series and parameters, all indicators collected per series, bucketed by (indicator, field)"
 MIN_NONTRIVIAL = {'quick': 1500, 'thorough': 30000}
 
-KINDS = ['walk', 'trend', 'downtrend', 'spikes', 'alternating', 'flatish', 'walk', 'spikes', 'constant', 'monotone']
+KINDS = ['walk', 'trend', 'downtrend', 'spikes', 'alternating', 'flatish', 'walk', 'spikes', 'constant', 'monotone', 'lattice', 'leading-zero-volume', 'lattice']
 
 
 def _same(x, y, scale):
     if isinstance(x, (int, float)) and isinstance(y, (int, float)) and not isinstance(x, bool) and not isinstance(y, bool):
+        if not np.isfinite(x) and not np.isfinite(y):
+            return True  # both undefined (0/0 vs x/0 on degenerate inputs): nothing to compare
         return bool(np.isclose(float(x), float(y), rtol=1e-9, atol=1e-9 * scale, equal_nan=True))
     return x == y or (x != x and y != y)
 
@@ -41,7 +44,8 @@ def compare_prefix(name, full, pre, k, scale, order_exempt=0):
         if order_exempt:
             a2, p2 = a2[:max(0, k - order_exempt)], p2[:max(0, k - order_exempt)]
         if a2.dtype.kind in 'fiu' and p2.dtype.kind in 'fiu':
-            ok = np.isclose(a2.astype(float), p2.astype(float), rtol=1e-9, atol=1e-9 * scale, equal_nan=True)
+            af, pf = a2.astype(float), p2.astype(float)
+            ok = np.isclose(af, pf, rtol=1e-9, atol=1e-9 * scale, equal_nan=True) | (~np.isfinite(af) & ~np.isfinite(pf))
         else:
             ok = np.array([_same(x, y, scale) for x, y in zip(a2.tolist(), p2.tolist())], dtype=bool)
         if not ok.all():
@@ -59,6 +63,12 @@ def eval_case(case, only=None):
     c2 = gi.make_candles('walk', case['n'], case['seed'] + 1, case.get('scale', 100.0))
     scale = float(max(np.abs(c[:, 1:5]).max(), np.abs(c[:, 5]).max()))
     vios, stats = [], dict(evals=0, skipped=0, nontrivial=0, called=0)
+    ks = list(case['ks'])
+    if case['kind'] == 'leading-zero-volume':
+        # also cut inside / right at the end of the zero-volume stretch (a prefix made of gap-filled candles only)
+        stretch = int(np.argmax(c[:, 5] > 0))
+        ks += [k for k in (stretch, stretch - 1) if k >= min(case['ks'] + [100]) and k not in ks]
+    case = dict(case, ks=sorted(ks))
     for name, (f, sig) in ind.items():
         if only and name not in only:
             continue
